@@ -546,7 +546,8 @@ fn main() {
         for vi in 0..vs.len() {
             fact(&mut w, format!("core::mem::size_of::<m::CappedRecord{vi}<CAP>>() == core::mem::size_of::<m::CappedRecord0<CAP>>()"), "C03: record types of one definition differ in size");
             fact(&mut w, format!("core::mem::align_of::<m::CappedRecord{vi}<CAP>>() == core::mem::align_of::<m::CappedRecord0<CAP>>()"), "C03: record types of one definition differ in alignment");
-            let mut tys: Vec<&str> = vs[vi].fields.iter().map(|f| f.ty.as_str()).collect();
+            // "a multiple of the alignment of every datum of every variant": all variants' field types, for each record type
+            let mut tys: Vec<&str> = vs.iter().flat_map(|v| v.fields.iter()).map(|f| f.ty.as_str()).collect();
             tys.sort();
             tys.dedup();
             for ty in tys {
